@@ -45,6 +45,11 @@ type Config struct {
 	// Prefix: the exploration does not start from the initial state but after this many rounds of
 	// sparse traffic on value A (one token, then a pause just over one duration)
 	Prefix int `json:"sparse_prefix_rounds,omitempty"`
+	// Front (F6): another rule of the same resource in front of the metered one. 1 = a rule whose selected
+	// argument (index 9) no request carries, with threshold 0: it applies to nothing and must not hide the rule
+	// behind it (an attachment key would not do: a missing key falls back to the argument index); 2 = a
+	// permissive rule on the same argument
+	Front int `json:"front_rule,omitempty"`
 }
 
 func (c Config) String() string { b, _ := json.Marshal(c); return string(b) }
@@ -134,9 +139,21 @@ func (s *scen) Reset() {
 	s.firstSeen = map[int]int64{}
 	s.lastReq = map[int]int64{}
 	s.lru = s.lru[:0]
-	rules := []*hotspot.Rule{s.mkRule("shared")}
+	var rules []*hotspot.Rule
+	add := func(res string) {
+		switch s.cfg.Front {
+		case 1:
+			rules = append(rules, &hotspot.Rule{ID: "front", Resource: res, MetricType: hotspot.QPS, ControlBehavior: hotspot.Reject, ParamIndex: 9, Threshold: 0, DurationInSec: 1})
+		case 2:
+			f := s.mkRule(res)
+			f.ID, f.ControlBehavior, f.Threshold, f.BurstCount, f.SpecificItems = "front", hotspot.Reject, 1000000000, 0, nil
+			rules = append(rules, f)
+		}
+		rules = append(rules, s.mkRule(res))
+	}
+	add("shared")
 	for i := range values {
-		rules = append(rules, s.mkRule(fmt.Sprintf("only%d", i)))
+		add(fmt.Sprintf("only%d", i))
 	}
 	if _, err := hotspot.LoadRules(rules); err != nil {
 		panic(err)
@@ -487,6 +504,11 @@ func configs(quick bool) []Config {
 		for _, pre := range []int{3, 6} {
 			out = append(out, Config{Family: "F5", T: t, Burst: int64(pre % 2), D: 1, SpecA: -1, Prefix: pre})
 		}
+	}
+	// F6 a second rule in front of the metered one
+	for _, fr := range []int{1, 2} {
+		out = append(out, Config{Family: "F6", T: 1, D: 1, SpecA: -1, Front: fr}, Config{Family: "F6", T: 2, Burst: 1, D: 1, SpecA: 0, Front: fr, Index: 1},
+			Config{Family: "F6", Throttle: true, T: 2, D: 1, MaxQ: 500, SpecA: -1, Front: fr, ByKey: fr == 2})
 	}
 	// F4 capacity below the number of values
 	for _, capa := range []int64{1, 2} {
